@@ -11,7 +11,8 @@ Line-protocol driver of the C16 error-handling model (stateless: one case per li
   `reader:-` | `chunks:<off>:<m>:<k>` | `discard` | `size`
 * `<base>`, and `<resp>` unless it is `F:<k>` (handler returns error `k`), is a buffer:
   `B:<hex>` validated byte slice, `E:<k>` error buffer, `S:<hex>` NewCASBufferFromByteSlice,
-  `C:<items>` / `R:<items>` CAS buffer over a scripted chunk reader / reader; items are
+  `C:<items>` / `R:<items>` CAS buffer over a scripted chunk reader / reader, `K:<items>` one half of
+  `CloneStream()` of a CAS buffer over a scripted chunk reader (the other half is discarded); items are
   `.`-separated: hex data, `-` empty chunk, `!<k>` failure `k`; `_` = no items.
 
 Reply: `<result> log=<errors offered to OnError> done=<number of Done calls>`.
@@ -40,6 +41,7 @@ def buf? (d : Digest) (w : String) : Option Buf :=
   | ["S", x] => (hexBytes? x).map (casBytes d)
   | ["C", x] => (items? x).map (Buf.chunks d)
   | ["R", x] => (items? x).map (Buf.reader d)
+  | ["K", x] => (items? x).map (Buf.clone d)
   | _ => none
 
 def resp? (d : Digest) (w : String) : Option Resp :=
